@@ -30,7 +30,7 @@ package golang
 
 //@ func (g *generator) renderTemplate(filename string, data any) error
 //@   requires genOK(g)
-//@   modifies fsKind, fsData
+//@   modifies fsKind, fsData, all(errors.MultiError.n)
 //@   ensures @untouched untouched()
 //@   ensures @created result == nil ==> old(fsKind)[filepath.Join(g.Params.Path, g.Params.Spec.Name, filename)] == 0
 //@     && fsKind[filepath.Join(g.Params.Path, g.Params.Spec.Name, filename)] == 2
@@ -41,7 +41,7 @@ package golang
 
 //@ func (g *generator) generateCore() error
 //@   requires genOK(g)
-//@   modifies fsKind, fsData
+//@   modifies fsKind, fsData, all(errors.MultiError.n)
 //@   loop[0] invariant untouched()
 //@   loop[0] invariant errs == nil && __i0 > 0 ==> old(fsKind)[pkgFile(g, "errors.go")] == 0 && fsKind[pkgFile(g, "errors.go")] == 2
 //@   loop[0] invariant errs == nil && __i0 > 1 ==> old(fsKind)[pkgFile(g, "types.go")] == 0 && fsKind[pkgFile(g, "types.go")] == 2
@@ -54,9 +54,11 @@ package golang
 //@   requires dfa != nil
 //@   ensures result != nil
 
+//@ func (g *generator) generateLexer$1(s auto.State) int
+
 //@ func (g *generator) generateLexer() error
 //@   requires genOK(g)
-//@   modifies fsKind, fsData
+//@   modifies fsKind, fsData, all(errors.MultiError.n)
 //@   loop[3] invariant untouched()
 //@   loop[3] invariant errs == nil && __i3 > 0 ==> old(fsKind)[pkgFile(g, "input.go")] == 0 && fsKind[pkgFile(g, "input.go")] == 2
 //@   loop[3] invariant errs == nil && __i3 > 1 ==> old(fsKind)[pkgFile(g, "lexer.go")] == 0 && fsKind[pkgFile(g, "lexer.go")] == 2
@@ -66,7 +68,7 @@ package golang
 
 //@ func (g *generator) generateParser() error
 //@   requires genOK(g)
-//@   modifies fsKind, fsData
+//@   modifies fsKind, fsData, all(errors.MultiError.n)
 //@   loop[0] invariant untouched()
 //@   loop[0] invariant errs == nil && __i0 > 0 ==> old(fsKind)[pkgFile(g, "parser.go")] == 0 && fsKind[pkgFile(g, "parser.go")] == 2
 //@   ensures @untouched untouched()
@@ -76,7 +78,7 @@ package golang
 
 //@ func Generate(u ui.UI, params *Params) error
 //@   requires u != nil && params != nil && params.Spec != nil
-//@   modifies fsKind, fsData, params.Path
+//@   modifies fsKind, fsData, params.Path, all(errors.MultiError.n)
 //@   ensures @untouched untouched()
 //@   ensures @badname !isIDValid(old(params.Spec.Name)) ==> result != nil && fsKind == old(fsKind) && fsData == old(fsData)
 //@   ensures @conflict lalrConflict(old(params.Spec.Grammar), old(params.Spec.Precedences)) ==> result != nil
